@@ -70,11 +70,15 @@ def _num_equal(a, b, rtol, atol):
         if math.isnan(a) and math.isnan(b):
             return True
         if a == b:
-            return True
+            return not (SIGNED_ZERO and a == 0 and math.copysign(1.0, a) != math.copysign(1.0, b))
         if rtol or atol:
             return abs(a - b) <= atol + rtol * max(abs(a), abs(b))
         return False
     return a == b
+
+
+# bit-level comparison of floats: when set, -0.0 and 0.0 count as different (used by C15, "bit-identical")
+SIGNED_ZERO = False
 
 
 def diff(a, b, path="", rtol=0.0, atol=0.0, out=None, limit=20, ignore=()):
@@ -96,6 +100,8 @@ def diff(a, b, path="", rtol=0.0, atol=0.0, out=None, limit=20, ignore=()):
             x = np.array(a[3], dtype=float)
             y = np.array(b[3], dtype=float)
             same = (x == y) | (np.isnan(x) & np.isnan(y))
+            if SIGNED_ZERO:
+                same &= ~((x == 0) & (y == 0) & (np.signbit(x) != np.signbit(y)))
             if rtol or atol:
                 with np.errstate(invalid="ignore"):
                     same |= np.abs(x - y) <= atol + rtol * np.maximum(np.abs(x), np.abs(y))
